@@ -960,7 +960,10 @@ class Interp:
             return self.exec_while(fr, s)
         if isinstance(s, (ast.Continue, ast.Break)):
             if isinstance(s, ast.Break) and self.loops:
-                self.loops[-1].broken = True
+                # (a run for one known element of a written-out sequence is exact: what follows a conditional break runs under
+                # its negation, later runs under "no break so far" - nothing is lost; a generic element cannot say "the rest")
+                if not getattr(self.loops[-1], "exact_run", False):
+                    self.loops[-1].broken = True
                 fr.breaks.append(self.rel_guard(fr))
             return FALSE
         if isinstance(s, ast.Raise):
@@ -1322,6 +1325,7 @@ class Interp:
                 self.loops = [*self.loops, lp]
             else:
                 marker = Loop(f"u{len(self.loops)}", Coll(), s, fr.fi)
+                marker.exact_run = self.concrete and ckey is None and not isinstance(value, _Mapped) or (self.concrete and ckey is None and isinstance(value, _Mapped) and value.index is not None)  # type: ignore[attr-defined]
                 self.loops = [*self.loops, marker]
             flags = self._flags_before(fr, s.body) if ckey is not None else {}
             try:
@@ -2337,6 +2341,12 @@ class Interp:
                     ks.append(str(v.value))
             if all(isinstance(v, ast.Constant) or (isinstance(v, ast.FormattedValue) and v.conversion == -1 and v.format_spec is None and isinstance(conc(self.ev(fr, v.value)), str)) for v in e.values):
                 return Const("".join(str(v.value) if isinstance(v, ast.Constant) else conc(self.ev(fr, v.value)) for v in e.values))
+            # one of a few constant strings chosen under a condition (`f"_is_{mode}_import"`): one text per alternative
+            fvs = [v for v in e.values if isinstance(v, ast.FormattedValue)]
+            if len(fvs) == 1 and fvs[0].conversion == -1 and fvs[0].format_spec is None:
+                x = self.ev(fr, fvs[0].value)
+                if isinstance(x, AltV) and len(x.alts) <= 8 and all(isinstance(a_, Const) and isinstance(a_.value, str) for _g, a_ in x.alts):
+                    return self.mk_alt([(g_, Const("".join(str(v.value) if isinstance(v, ast.Constant) else a_.value for v in e.values))) for g_, a_ in x.alts])
             return Unknown("f'" + "".join(ks) + "'", t, False)
         if isinstance(e, ast.BinOp):
             a, b = self.ev(fr, e.left), self.ev(fr, e.right)
@@ -2967,6 +2977,19 @@ class Interp:
             return Unknown(f"str({key(a)})", t, False)
         if name in ("print", "logging.debug", "logging.info", "warnings.warn"):
             return NoneV()
+        if name == "getattr" and len(args) in (2, 3) and not kwargs:
+            obj_, nm = args[0], args[1]
+            if isinstance(nm, AltV) and all(isinstance(a_, Const) and isinstance(a_.value, str) for _g, a_ in nm.alts):
+                return self.mk_alt([(g_, self.call_builtin(fr, "getattr", [obj_, a_, *args[2:]], {}, e)) for g_, a_ in self.live(nm)])
+            if isinstance(nm, Const) and isinstance(nm.value, str):
+                if isinstance(obj_, (Obj, ClassRef, SuperRef)):
+                    known = isinstance(obj_, Obj) and (nm.value in obj_.fields or self.repo.lookup_method(obj_.cls, nm.value) is not None or any(nm.value in c_.class_attrs for c_ in self.repo.mro(obj_.cls)))
+                    if known or not isinstance(obj_, Obj):
+                        return self.attr_of(fr, obj_, nm.value)
+                    if len(args) == 3:
+                        return args[2]
+                elif isinstance(obj_, (Opaque, Elem, Importee, Anc, ConcImport)):
+                    return BoundAPI(obj_, nm.value)
         if name in ("functools.partial", "partial") and args:
             return PartialV(args[0], args[1:], dict(kwargs))
         if name in ("functools.lru_cache", "lru_cache", "functools.cache", "cache", "<memoising-wrapper>"):
